@@ -7,14 +7,18 @@ package checks
 
 import (
 	"bytes"
+	"encoding/json"
 	"fmt"
 	"os"
+	"os/exec"
+	"path/filepath"
 	"strings"
 	"time"
 
 	abci "github.com/tendermint/tendermint/abci/types"
 
 	"verif/internal/chain"
+	"verif/internal/ev"
 )
 
 type c01variant struct {
@@ -190,6 +194,66 @@ func diffPart(a, b string) string {
 	return "length"
 }
 
+// c01freshJob is what the fresh-process variant hands to its child process.
+type c01freshJob struct {
+	Cfg    chain.Config  `json:"cfg"`
+	Blocks []chain.Block `json:"blocks"`
+}
+
+// C01Fresh (child side): runs the baseline on the job read from path and prints its trace as JSON.
+func C01Fresh(path string) int {
+	bz, err := os.ReadFile(path)
+	if err != nil {
+		fmt.Println(err)
+		return 2
+	}
+	var job c01freshJob
+	if err := json.Unmarshal(bz, &job); err != nil {
+		fmt.Println(err)
+		return 2
+	}
+	tr, _, _ := runC01variant(job.Cfg, nil, job.Blocks)
+	out, _ := json.Marshal(map[string]interface{}{"init": tr.init, "blocks": tr.blocks})
+	fmt.Println("C01FRESH:" + string(out))
+	return 0
+}
+
+// runC01fresh (parent side): the same history on an instance in a brand-new process, so that state
+// a process accumulates outside the application object (package-level variables) cannot hide.
+func runC01fresh(cfg chain.Config, blocks []chain.Block) (tr c01trace, err error) {
+	bin := os.Getenv("VCHECK_BIN")
+	if bin == "" {
+		bin = os.Args[0]
+	}
+	dir := filepath.Join(ev.Root, ".work")
+	f, err := os.CreateTemp(dir, "c01fresh-*.json")
+	if err != nil {
+		return tr, err
+	}
+	defer os.Remove(f.Name())
+	bz, _ := json.Marshal(c01freshJob{cfg, blocks})
+	f.Write(bz)
+	f.Close()
+	outb, err := exec.Command(bin, "_c01fresh", f.Name()).Output()
+	if err != nil {
+		return tr, fmt.Errorf("child failed: %v: %.200s", err, outb)
+	}
+	for _, ln := range strings.Split(string(outb), "\n") {
+		if strings.HasPrefix(ln, "C01FRESH:") {
+			var o struct {
+				Init   string   `json:"init"`
+				Blocks []string `json:"blocks"`
+			}
+			if err := json.Unmarshal([]byte(ln[len("C01FRESH:"):]), &o); err != nil {
+				return tr, err
+			}
+			tr.init, tr.blocks = o.Init, o.Blocks
+			return tr, nil
+		}
+	}
+	return tr, fmt.Errorf("no trace in the child's output: %.200s", outb)
+}
+
 // RunC01History runs the differential oracle for one history.
 func RunC01History(cfg chain.Config, prelude, blocks []chain.Block, tier string) HistResult {
 	res := HistResult{}
@@ -234,6 +298,29 @@ func RunC01History(cfg chain.Config, prelude, blocks []chain.Block, tier string)
 				break
 			}
 		}
+	}
+	if cfg.FreshProc {
+		// F: the same requests to an instance in a fresh operating-system process
+		tr, err := runC01fresh(cfg, all)
+		switch {
+		case err != nil:
+			res.Findings = append(res.Findings, Finding{"C01", "C01|F:fresh-process|harness", "fresh-process run failed: " + err.Error()})
+		case tr.init != base.init:
+			res.Findings = append(res.Findings, Finding{"C01", "C01|F:fresh-process|initchain-validators", fmt.Sprintf("InitChain validators differ: %s vs %s", tr.init, base.init)})
+		default:
+			for i := range base.blocks {
+				if i >= len(tr.blocks) {
+					res.Findings = append(res.Findings, Finding{"C01", "C01|F:fresh-process|stopped-early", fmt.Sprintf("fresh-process instance stopped after %d blocks, baseline ran %d", len(tr.blocks), len(base.blocks))})
+					break
+				}
+				if tr.blocks[i] != base.blocks[i] {
+					part := diffPart(base.blocks[i], tr.blocks[i])
+					res.Findings = append(res.Findings, Finding{"C01", "C01|F:fresh-process|" + part, fmt.Sprintf("block %d differs in %s between an instance in a process that has run other instances before and an instance in a fresh process: %.400s ... %.400s", i+1, part, base.blocks[i], tr.blocks[i])})
+					break
+				}
+			}
+		}
+		res.Transitions += n
 	}
 	return res
 }
@@ -310,6 +397,7 @@ func init() {
 			// the consensus parameters, which a reopened instance has to find again)
 			gl := gs[0]
 			gl.MaxBlockGas = 150000
+			gl.FreshProc = true // every history of this scenario also runs in a brand-new process
 			send := func(from, to int) chain.Event { return txE(chain.TxSpec{Msg: "send", From: from, To: to, Amount: 1}) }
 			gasAlpha := []Choice{
 				multiB("[send,send,send]", send(3, 2), send(4, 2), send(2, 3)),
@@ -322,6 +410,7 @@ func init() {
 			// a genesis with history, as a state export produces it: signing infos and missed-block
 			// arrays for the validators and for six former validators
 			hist := gs[0]
+			hist.FreshProc = true
 			hist.GenHistory = []int{0, 1, 5, 6, 7, 8, 9, 10}
 			scs = append(scs, Scenario{Name: "2val-genesis-with-signing-history", Cfg: hist, Alphabet: c01alphabet(), K: 1, D: d - 1, Tail: 1})
 			return scs
